@@ -1,4 +1,4 @@
-import VOPyVerif.Proofs.AcqUnique
+import VOPyVerif.Proofs.AcqSteps
 import Mathlib.Analysis.Real.Sqrt
 /-!
 # C07 — samples go to the acquisition maximiser among active designs and reach the model
@@ -373,6 +373,38 @@ theorem empAddSample_appends (samples : List (List Vec)) (indices : List Nat) (Y
     · simp only [Option.some.injEq] at h
       subst h
       exact foldl_modify_append_singleton _ _ _
+
+/-- **One round of PaVeBa / Auer reaches the model design by design.**  With duplicate-free `S`
+and `U`, after `evaluating()` every active design (`S ∪ U`) has exactly one new sample — the
+observation returned for *that* design — appended to its sample list, and every other design's list
+is unchanged. -/
+theorem evaluateAllStep_appends (S U : List Nat) (hS : S.Nodup) (hU : U.Nodup) (observe : Nat → Vec)
+    (samples out : List (List Vec)) (h : evaluateAllStep S U observe samples = some out) (i : Nat) :
+    out[i]? = samples[i]?.map (fun s => if i ∈ S ∨ i ∈ U then s ++ [observe i] else s) :=
+  evaluateAllStep_spec hS hU observe samples out h i
+
+/-- **One `evaluating()` step of a decoupled GP algorithm.**  The candidates are the selected
+(design row, objective) pairs of `optimizeDecoupled`; when `add_sample` succeeds, objective `j`'s
+store is its old content followed by exactly the candidates requested for objective `j`, each
+paired with the value the problem returned for that (row, objective), in candidate order. -/
+theorem evaluatingStepDecoupled_appends (d : Nat) (designs : List Vec) (table : List (List Rat))
+    (q : Nat) (observe : Vec → Nat → Rat) (stores out : List (List (Vec × Rat)))
+    (h : (evaluatingStepDecoupled d designs table q observe stores).2 = some out) (j : Nat) :
+    let cand := (evaluatingStepDecoupled d designs table q observe stores).1
+    cand = (optimizeDecoupled table q).filterMap (fun e => (designs[e.pos]?).map (fun x => (x, e.obj))) ∧
+    out[j]? = stores[j]?.map (fun s =>
+      s ++ (cand.filter (fun c => c.2 == j)).map (fun c => (c.1.take d, observe c.1 c.2))) := by
+  simp only [evaluatingStepDecoupled] at h ⊢
+  refine ⟨trivial, ?_⟩
+  rw [listAddSample_appends d stores _ _ _ out h j, zip3_map]
+  congr 1
+  funext s
+  congr 1
+  rw [List.filter_map, List.map_map]
+  rfl
+
+example : evaluateAllStep [2, 0] [3, 2] (fun i => [i, i]) [[[5, 5]], [], [[6, 6]], []]
+    = some [[[5, 5], [0, 0]], [], [[6, 6], [2, 2]], [[3, 3]]] := by decide +kernel
 
 example : empAddSample [[], [[1, 1]], []] [2, 0, 2] [[5, 5], [6, 6], [7, 7]]
     = some [[[6, 6]], [[1, 1]], [[5, 5], [7, 7]]] := by decide +kernel
